@@ -127,6 +127,8 @@ RULES = {
     'P4r': ('rules_r10', 'no function of the queue layers returns a reference into a slot payload'),
     'S6': ('rules_r10', 'receive handles store no payload value (all receive entry points draw from the ring)'),
     'P12u': ('rules_r10', 'no user code (a closure handed in through an entry point of the crate) runs while a function walks the published stream list'),
+    'S9': ('rules_r10', 'no state change (atomic write, lock, Cell::set, notify) inside a block that only exists with debug assertions (`debug_assert!(x.fetch_add(1) < N)`): the release build would lack it'),
+    'S8': ('rules_r10', 'handle kinds stay apart: no futures -> plain receive conversion; no Deref / AsRef / Borrow on handle types, no Clone on single-consumer handles'),
     'S7': ('rules_r10', 'inside the crate a receive iterator is only driven by adaptors that deliver every element they pull (no zip-left / take_while / map_while / peekable)'),
     # ---- crate-wide sweeps
     'W3s': ('rules_sweep', 'crate-wide: every slot-payload access is at a site one of the vetted entry graphs contains'),
@@ -143,13 +145,13 @@ DATAPATH = ['P1a', 'P1b', 'P1c', 'P1d', 'P1e', 'P1f', 'P1g', 'P1h', 'P2a', 'P2b'
 
 # rules of the futures adapters and of parking / waking: a broken one shows up under C13, C14 or C15 (and C11 when the
 # wake-up that follows a stream removal is lost), so those checks share them
-FUTURES = ['P2d', 'P6b', 'P6c', 'P6d', 'P7c', 'P7d', 'P7e', 'P7f', 'P7g', 'P7h', 'P7j', 'P7k', 'P9d', 'P11a', 'P11b', 'P11c', 'P11d', 'P11e', 'P11f',
+FUTURES = ['S8', 'P7i', 'P2d', 'P6b', 'P6c', 'P6d', 'P7c', 'P7d', 'P7e', 'P7f', 'P7g', 'P7h', 'P7j', 'P7k', 'P9d', 'P11a', 'P11b', 'P11c', 'P11d', 'P11e', 'P11f',
            'P11g', 'P11h', 'P11i', 'P8']
 
 PROPS = {
     # (a blocking receive that reports the end while an accepted value is still in the ring loses that value for its stream)
-    'C01': DATAPATH + ['P6b', 'S6', 'S7'],
-    'C02': DATAPATH + ['S6'],
+    'C01': DATAPATH + ['P6b', 'S6', 'S7', 'S8'],
+    'C02': DATAPATH + ['S6', 'S8'],
     'C03': DATAPATH + ['P5n'],
     'C04': DATAPATH + ['W14', 'P3u', 'P4r'],
     'C05': DATAPATH + ['P13c', 'P13e', 'P13g', 'P3u', 'W14'],
@@ -157,9 +159,9 @@ PROPS = {
     'C06': DATAPATH + ['W10', 'C13map', 'P9c'],
     # ... and a futures Stream only learns of the last value / of the end when its parked task is woken: the stream
     # side of the parking protocol belongs here as well
-    'C07': ['P3f', 'P6b', 'W6', 'P2e', 'P8', 'P7a', 'P7b', 'P7f', 'P7i', 'S3', 'O3', 'P2d', 'P7c', 'P7d', 'P7g', 'P7h', 'P7j', 'P11c', 'P11g'],
-    'C08': ['P7a', 'P7b', 'P7f', 'P7h', 'P7i', 'P7k', 'P2d', 'P8', 'P6b', 'P6c', 'P6d', 'P3f', 'O3'],
-    'C09': ['P1a', 'P1b', 'P1h', 'P3f', 'P6b', 'P9b', 'P9c', 'P9f', 'P9g', 'P10a', 'P10b', 'P10e', 'P10h', 'P11a', 'P11b', 'P11c', 'S1', 'S3', 'W10', 'W13', 'P15i', 'C13map', 'P15', 'P15m', 'P15w', 'P7c', 'P7d', 'P7e', 'P7f', 'P7g', 'P7h', 'P7j', 'P1f', 'P1g', 'P3a', 'P3e', 'P3g', 'P4', 'P4e', 'P8', 'W6', 'S6', 'P5n', 'S7'],
+    'C07': ['W2', 'W1s', 'P3f', 'P6b', 'W6', 'P2e', 'P8', 'P7a', 'P7b', 'P7f', 'P7i', 'S3', 'O3', 'P2d', 'P7c', 'P7d', 'P7g', 'P7h', 'P7j', 'P11c', 'P11g'],
+    'C08': ['W2', 'W1s', 'P7a', 'P7b', 'P7f', 'P7h', 'P7i', 'P7k', 'P2d', 'P8', 'P6b', 'P6c', 'P6d', 'P3f', 'O3'],
+    'C09': ['P1a', 'P1b', 'P1h', 'P3f', 'P6b', 'P9b', 'P9c', 'P9f', 'P9g', 'P10a', 'P10b', 'P10e', 'P10h', 'P11a', 'P11b', 'P11c', 'S1', 'S3', 'W10', 'W13', 'P15i', 'C13map', 'P15', 'P15m', 'P15w', 'P7c', 'P7d', 'P7e', 'P7f', 'P7g', 'P7h', 'P7j', 'P1f', 'P1g', 'P3a', 'P3e', 'P3g', 'P4', 'P4e', 'P8', 'W6', 'S6', 'P5n', 'S7', 'S8', 'P7i'],
     'C10': ['S6', 'P10a', 'P10b', 'P10c', 'P10d', 'P10f', 'P10g', 'P10h', 'P15', 'P15m', 'P15n', 'P15w', 'P3t', 'P5a', 'S5', 'W9'],
     'C11': ['P5n', 'P9a', 'P9b', 'P9c', 'P9d', 'P9f', 'P10b', 'P10h', 'P11i', 'P10d', 'P10e', 'P10f', 'P10g', 'P1b', 'P11e', 'P11g', 'P12d', 'W7', 'W9', 'S5'],
     'C12': DATAPATH + ['W6', 'P9a', 'P5n'],
@@ -208,5 +210,8 @@ C19_CLAIMED = True
 # protocol of its own is only seen by them, so they are evaluated in both tiers and listed in PROPS)
 THOROUGH_EXTRA = {}
 SWEEPS = {'C01': ['W1s', 'W3s'], 'C02': ['W1s', 'W3s'], 'C03': ['W1s'], 'C04': ['W3s'], 'C05': ['W3s'], 'C06': ['W1s', 'W3s'], 'C12': ['W1s'], 'C09': ['W1s', 'W3s']}
+for _k in list(PROPS):
+    # (a state change that only exists in debug builds can be part of any protocol)
+    PROPS[_k] = list(PROPS[_k]) + ['S9']
 for _k, _v in SWEEPS.items():
     PROPS[_k] = list(PROPS[_k]) + [r_ for r_ in _v if r_ not in PROPS[_k]]
